@@ -757,6 +757,52 @@ def unreadable_client_certificates(rep, rnd):
     rep.add("traces_validated_against_impl", n)
 
 
+def chain_cannot_start(rep, rnd):
+    """C04 "a component that raises causes refusal, never admission", for a chain that cannot even be started: the object
+    given as middleware raises from process_request itself (a plain method, not a coroutine) - RuntimeError,
+    NotImplementedError, RecursionError.  No handler may run."""
+    import asyncio
+    from nauyaca.protocol.response import GeminiResponse
+    from nauyaca.server.protocol import GeminiServerProtocol
+    from vf.transports import FakeTransport
+    from vf.vloop import VLoop
+    n = 0
+    for exc in (RuntimeError("no"), NotImplementedError("abstract"), RecursionError("deep"), ValueError("bad"), TypeError("t")):
+        for line in (b"gemini://h.ex/secret.gmi\r\n", b"titan://h.ex/up.gmi;size=3;mime=text/plain\r\nabc"):
+            loop = VLoop()
+            asyncio.set_event_loop(loop)
+            try:
+                handled = []
+
+                class Broken:
+                    def process_request(self, url, ip, fp=None):
+                        raise exc
+
+                class Up:
+                    async def handle_upload(self, req):
+                        handled.append("upload")
+                        return GeminiResponse(status=20, meta="text/gemini", body="stored\n")
+
+                def handler(req):
+                    handled.append("request")
+                    return GeminiResponse(status=20, meta="text/gemini", body="SECRET\n")
+                proto = GeminiServerProtocol(handler, Broken(), Up())
+                tr = FakeTransport(loop, proto, peername=("192.0.2.7", 40000), auto_lost=True)
+                loop.call(proto.connection_made, tr)
+                loop.call(tr.feed, line)
+                loop.run_idle()
+                n += 1
+                if handled or bytes(tr.wire[:1]) == b"2":
+                    rep.violation({"formula": "GateC04", "chain_cannot_start": True},
+                                  "GateC04 falsified: the middleware object raises %r from process_request itself; request %r: handlers run %s, answer %r" % (
+                                      exc, line[:40], handled, bytes(tr.wire)[:40]), None)
+            finally:
+                asyncio.set_event_loop(None)
+                loop.close()
+    rep.add("chain_cannot_start_requests", n)
+    rep.add("traces_validated_against_impl", n)
+
+
 def binding_selftest(rep, rnd):
     """Demonstrate that the trace spec constrains: corrupt one logged field / drop one event of accepted
     traces and require rejection."""
@@ -832,6 +878,7 @@ def main(pid, rep=None, finish=True):
         if pid == "C04":
             titan_param_paths(rep, rnd)
             unreadable_client_certificates(rep, rnd)
+            chain_cannot_start(rep, rnd)
         if pid == "C07":
             titan_segmentation(rep, rnd)
         if pid == "C01":
